@@ -104,8 +104,14 @@ func c02FrameIn(c *core.Ctx, st *c01State, class string, in []byte, tail []byte)
 	viewOff("UDP", frame.UDP(), want.OffUDP)
 	viewOff("TCP", frame.TCP(), want.OffTCP)
 	viewOff("Payload", frame.Payload(), want.OffPayload)
-	if p := frame.Payload(); want.OffPayload < len(in) && !bytes.Equal(p, in[want.OffPayload:]) {
-		diffs = append(diffs, "Payload bytes differ from the frame bytes at the expected offset")
+	end := len(in)
+	if want.PayloadEnd != 0 {
+		end = want.PayloadEnd // an IPv4 datagram ends at its total length: Ethernet padding is not payload
+	}
+	if p := frame.Payload(); want.OffPayload < end && !bytes.Equal(p, in[want.OffPayload:end]) {
+		diffs = append(diffs, fmt.Sprintf("Payload is %d bytes long, the reference payload (offset %d up to the end of the datagram at %d) is %d bytes long, or the bytes differ", len(p), want.OffPayload, end, end-want.OffPayload))
+	} else if want.OffPayload >= end && len(frame.Payload()) != 0 {
+		diffs = append(diffs, fmt.Sprintf("Payload is %d bytes long, the reference payload is empty (the datagram ends at %d)", len(frame.Payload()), end))
 	}
 	if len(diffs) > 0 {
 		c.Violate("decode-mismatch|"+firstWord(diffs[0]), fmt.Sprintf("%s: %v frame=%x", class, diffs, trunc(in, 80)), rp)
@@ -219,7 +225,7 @@ func short(v any) any {
 func c02Run(c *core.Ctx, args []string) {
 	c.Res.Level = "exploration"
 	c.Res.Rule = "(1) structural frames over the whole classification table: EtherType alphabet x source MAC class; IPv4 and IPv6 x all 256 protocol numbers x MAC class; all ordered pairs of the 19 port alphabet in both families; all 16 IPv4 IHL values x TotalLen boundary set; all 16 TCP data offsets x segment lengths; every truncation (with exact capacity, and at the start of a read buffer that still holds the rest of the frame) and 1..46 bytes of trailing padding of one frame per class; (2) getter sweep: for each view every 16-bit window takes all 65536 values (quick: windows of the first 24 bytes; thorough: every window) with two backgrounds. Oracle: independent table driven decoder refnet. distinct non-trivial = frames the reference accepts / valid view instances"
-	c.Res.Assumptions = []string{"where Ethernet padding makes the bounded and unbounded reading of a transport header disagree the case is unconstrained (either verdict accepted)", "802.1Q/802.1ad frames are expected as PayloadEther with the payload after the tags (no decapsulation demanded)", "ICMP4Redirect (not an RFC 792 redirect layout) and LLDP TLV accessors are outside the getter sweep"}
+	c.Res.Assumptions = []string{"IPv4: transport headers and the payload are bounded by the total length (Ethernet padding is not payload); IPv6 frames with bytes after the payload length: either verdict accepted", "802.1Q/802.1ad frames are expected as PayloadEther with the payload after the tags (no decapsulation demanded)", "ICMP4Redirect (not an RFC 792 redirect layout) and LLDP TLV accessors are outside the getter sweep"}
 	st := &c01State{}
 	unit := 0
 	next := func() bool { unit++; return c.Mine(unit - 1) }
